@@ -48,6 +48,7 @@ func init() {
 			us = append(us, manyUnits(tier)...)
 			us = append(us, concUnits(tier)...)
 			us = append(us, worldUnits(tier)...)
+			us = append(us, reloadShapeUnits(tier)...)
 			return us
 		},
 		QuickBudget:    240,
@@ -458,6 +459,13 @@ func scenarios(tier string) []*scenario {
 			sets:  [][]uspec{{sa, sb, sc}, {sb, sc}},
 			creds: []credential{{label: "alice=bob", name: "alice", cred: sa.cred}, {label: "alice=bob as bob", name: "bob", cred: sb.cred}, cr(sc)},
 			hints: []string{"carol", "nobody"}, srcs: []net.IP{s0, s1}, advances: adv[1:]})
+		// users registered by hashed password only: a reload changes one credential, only a quota, or nothing
+		ha, hb, hb2, hbq := hashedUser("alice", 0x41), hashedUser("bob", 0x42), hashedUser("bob", 0x43), hashedUser("bob", 0x42)
+		hbq.quota = 9
+		out = append(out, &scenario{name: "hashed-reload-" + m, mandatory: mand,
+			sets:  [][]uspec{{ha, hb}, {ha, hb2}, {ha, hbq}, {ha, hb}},
+			creds: []credential{cr(ha), {label: "bob(old)", name: "bob", cred: hb.cred}, {label: "bob(new)", name: "bob", cred: hb2.cred}},
+			srcs:  []net.IP{s0}, advances: adv[2:], ownHintOnly: true})
 		// two names that collide on the hint for the fixed nonce prefix
 		fix := bytes.Repeat([]byte{0x5a}, 16)
 		n1, n2 := collidingNames(fix)
